@@ -23,7 +23,11 @@ static void writer(struct snapraid_worker* w, struct snapraid_task* t) { unsigne
 void c08_mono_errors(void)
 {
 	int we[IO_WRITER_ERROR_MAX]; unsigned l, k, L, pos, wm[LMAX], wmac; int skip = 0; int expect[IO_WRITER_ERROR_MAX] = { 0, 0, 0, 0 };
+#ifdef NLEV
+	L = NLEV;    /* number of parity levels: enumerated by the driver */
+#else
 	L = vf_in_u8(); VF_ASSUME(L >= 1 && L <= LMAX);
+#endif
 	IO.io_max = 1; IO.writer_max = L; IO.writer_map = WW; IO.reader_max = 0; IO.buffer_map[0] = row;
 	for (l = 0; l < LMAX + 2; ++l) row[l] = b;
 	for (l = 0; l < LMAX; ++l) { WW[l].io = &IO; WW[l].func = writer; WW[l].buffer_skew = 0; outcome[l] = (int)(vf_in_u8() % 5) - 4; if (outcome[l] == 0) outcome[l] = TASK_STATE_DONE; }
